@@ -123,6 +123,13 @@ def receive_once(cf, fields, data, M, pc_id, groups, reception, ts_name, frag_so
     sop_class = fields.get('AffectedSOPClassUID') or fields.get('RequestedSOPClassUID') or ''
     tsuid = uid.UID(TS[ts_name])
     ctxs = {pc_id: asceprovider.PContextDef(pc_id, uid.UID(sop_class), tsuid)}
+    if (M + pc_id + len(frags)) % 3 != 0:
+        # the same abstract syntax was accepted in a SECOND context with another transfer syntax (a requester that
+        # proposes one context per transfer syntax): the message belongs to the context it arrives on
+        other_id = pc_id + 2 if pc_id < 254 else pc_id - 2
+        other_ts = uid.UID(TS['explicit'] if TS[ts_name] != TS['explicit'] else TS['big'])
+        sibling = asceprovider.PContextDef(other_id, uid.UID(sop_class), other_ts)
+        ctxs = {other_id: sibling, pc_id: ctxs[pc_id]} if (M + pc_id + len(frags)) % 3 == 1 else {pc_id: ctxs[pc_id], other_id: sibling}
     tmpdir = None
     file_backed = reception != 'memory'
     try:
